@@ -166,7 +166,16 @@ def episode(ncallers, ncalls, qmax, seed, tiny_timeout_rate=0.15):
             t.start()
         for t in ths:
             t.join(30)
-        # let late completions happen
+        # let late completions happen: every call the queue accepted is given time to be applied (a loaded machine must not
+        # look like a lost call), up to a generous bound
+        t_wait = time.time() + 10
+        while time.time() < t_wait:
+            with LOCK:
+                acc = {(e['c'], e['k']) for e in events if e['ev'] == 'put' and e.get('ok')}
+                app = {(e['c'], e['k']) for e in events if e['ev'] == 'apply'}
+            if acc <= app:
+                break
+            time.sleep(0.01)
         time.sleep(0.15)
         with LOCK:
             evs = list(events)
